@@ -33,6 +33,18 @@ for c in F.CONFIGS:
         # every named function and method of the reference tree: a function that is NOT in this list did not exist when the
         # rules were written, so no rule can mean it by its name -- it is an extracted helper, whatever it is called
         it["bodies"] = sorted({F.norm(b["path"]) for b in raw["bodies"] if b["kind"] in ("Fn", "AssocFn")})
+        # parameter names of the reference functions by position: a parameter that was merely renamed keeps the name the
+        # rules know (analysis/facts.py Body.name_of)
+        params = {}
+        for b in raw["bodies"]:
+            if b["kind"] not in ("Fn", "AssocFn"):
+                continue
+            nm = {}
+            for d in b["debug"]:
+                if not d["p"]["proj"] and 1 <= d["p"]["l"] <= b["argc"]:
+                    nm.setdefault(d["p"]["l"], d["name"])
+            params.setdefault(F.norm(b["path"]), [nm.get(i, "_%d" % i) for i in range(1, b["argc"] + 1)])
+        it["params"] = params
         out["%s|%s" % (raw["crate"], raw.get("config"))] = it
 json.dump(out, open(os.path.join(V, "analysis", "ref_items.json"), "w"), indent=0, sort_keys=True)
 print({k: {kk: len(vv) for kk, vv in v.items()} for k, v in out.items()})
